@@ -28,16 +28,19 @@ type config struct {
 	Graph string
 	Procs []string
 	Cfg   string
+	Trace string
 }
 
 func configs(ctx *core.Ctx) []config {
 	cs := []config{}
 	for _, g := range []string{"chain", "mutual", "cycle", "fail", "excl"} {
-		cs = append(cs, config{Name: g + "2", Graph: g, Procs: []string{"p1", "p2"}, Cfg: "MC_Extractor_" + g + "2.cfg"})
+		cs = append(cs, config{Name: g + "2", Graph: g, Procs: []string{"p1", "p2"}, Cfg: "MC_Extractor_" + g + "2.cfg", Trace: "Trace_Extractor_" + g + "2.cfg"})
 	}
 	if ctx.Thorough() {
-		for _, g := range []string{"chain", "mutual", "excl"} {
-			cs = append(cs, config{Name: g + "3", Graph: g, Procs: []string{"p1", "p2", "p3"}, Cfg: "MC_Extractor_" + g + "3.cfg"})
+		// three goroutines, one call each (the two-call graphs of three
+		// goroutines have millions of states: too large to dump and walk)
+		for _, g := range []string{"chain", "excl"} {
+			cs = append(cs, config{Name: g + "3x1", Graph: g, Procs: []string{"p1", "p2", "p3"}, Cfg: "MC_Extractor_" + g + "3x1.cfg", Trace: "Trace_Extractor_" + g + "3x1.cfg"})
 		}
 	}
 	return cs
@@ -51,6 +54,13 @@ func run(ctx *core.Ctx) error {
 
 	limit := 2 * time.Second
 	totalEdges, coveredEdges := 0, 0
+	if ctx.Thorough() {
+		// exhaustive only (no replay): three goroutines on mutually referential decoders
+		if _, err := ctx.MustHold(core.TLCOpts{Dir: "conc", Module: "MC_Extractor", Cfg: "MC_Extractor_mutual3x1.cfg", Workers: 12,
+			Timeout: 30 * time.Minute, Constants: "mutual3x1: p1,p2,p3 x 1 call, graph mutual"}); err != nil {
+			return err
+		}
+	}
 	for _, cf := range configs(ctx) {
 		three := len(cf.Procs) == 3
 		g, res, err := ctx.DumpGraph(core.TLCOpts{Dir: "conc", Module: "MC_Extractor", Cfg: cf.Cfg, Workers: 8,
@@ -60,7 +70,7 @@ func run(ctx *core.Ctx) error {
 		}
 		maxPaths := 0
 		if three {
-			maxPaths = 6000 // sampled edge cover for three goroutines
+			maxPaths = 8000 // sampled edge cover for three goroutines
 		}
 		paths, covered := g.EdgeCover(ctx.Rand("paths-"+cf.Name), 200, maxPaths)
 		totalEdges += g.NumEdges()
